@@ -382,6 +382,13 @@ func (m *machine) step(t *rapid.T) {
 	}
 	srcAddr := p.FA(src.ent, src.id)
 	d := p.Msg(cl, srcAddr, destAddr, ack, ref, cmd)
+	if rapid.IntRange(0, 5).Draw(t, "originator") == 0 {
+		// the optional addressOriginator of the header (a request forwarded on behalf of somebody else): the
+		// response still goes to the request's source feature
+		orig := []*model.FeatureAddressType{p.FA([]uint{1}, 1), p.NM(), {Device: util.Ptr(model.AddressDeviceType("d:_x:BEHIND-THE-PEER")), Entity: []model.AddressEntityType{1}, Feature: util.Ptr(model.AddressFeatureType(1))}}
+		d.Header.AddressOriginator = orig[rapid.IntRange(0, len(orig)-1).Draw(t, "originatorAddress")]
+		world.Label("header/address-originator")
+	}
 	if !ack && rapid.Bool().Draw(t, "explicitNoAck") {
 		d.Header.AckRequest = util.Ptr(false) // "ackRequest": false is as good as its absence
 	}
